@@ -59,9 +59,9 @@ func C14(tier string) {
 	r.Assume("a fully transparent non-premultiplied 8-bit pixel given to ColorFromNRGBA keeps its decoded colour with alpha 0 (C04 requires the colour of alpha-0 NRGBA pixels to survive conversion); the zero-colour clause is checked on the premultiplied and generic constructors")
 	r.Assume("encode-side expectation round(alpha*max) is evaluated in float64; where alpha*max+0.5 lies within M*2.4e-7 of an integer either neighbour is accepted (float32 arithmetic)")
 	if tier == "thorough" {
-		r.Rule("decode: all 65,536 alphas x every constructor x 4 spaces, all 8-bit (channel, alpha) pairs; premultiplied validity of LineariseColor: ALL (c, alpha) pairs with c <= alpha over 16 bits (2,147,516,416 per curve, 3 curves + Display P3); all alphas of Alpha/Alpha16/NYCbCrA/NRGBA/RGBA and a user-defined colour type; LineariseImage/EncodeImage on 256x256 images holding every alpha (origin (5,7), parallelism 1/3/7); encode: all 65,536 a/65535 alphas plus the float32 alphabet (powers of two, 1.5x, +/-, Inf, NaN) through every converter; distinct = (space, c, alpha) triples with 0 < c < alpha < max")
+		r.Rule("decode: all 65,536 alphas x every constructor x 4 spaces, all 8-bit (channel, alpha) pairs; premultiplied validity of LineariseColor: ALL (c, alpha) pairs with c <= alpha over 16 bits (2,147,516,416 per curve, 3 curves + Display P3); all alphas of Alpha/Alpha16/NYCbCrA/NRGBA/RGBA and a user-defined colour type; LineariseImage/EncodeImage on 256x256 images holding every alpha (origin (5,7), parallelism 1/3/7, destination fresh or pre-filled with 0xff); encode: all 65,536 a/65535 alphas plus the float32 alphabet (powers of two, 1.5x, +/-, Inf, NaN) through every converter; distinct = (space, c, alpha) triples with 0 < c < alpha < max")
 	} else {
-		r.Rule("decode: all 65,536 alphas x every constructor x 4 spaces, all 8-bit (channel, alpha) pairs; premultiplied validity of LineariseColor: all alphas x c in {0,1,2,alpha/2,alpha-2,alpha-1,alpha} and 64 evenly spaced c <= alpha; all alphas of Alpha/Alpha16/NYCbCrA/NRGBA/RGBA and a user-defined colour type; LineariseImage/EncodeImage on 256x256 images holding every alpha (origin (5,7), parallelism 1/3/7); encode: all 65,536 a/65535 alphas plus the float32 alphabet (powers of two, 1.5x, +/-, Inf, NaN) through every converter; distinct = (space, c, alpha) triples with 0 < c < alpha < max")
+		r.Rule("decode: all 65,536 alphas x every constructor x 4 spaces, all 8-bit (channel, alpha) pairs; premultiplied validity of LineariseColor: all alphas x c in {0,1,2,alpha/2,alpha-2,alpha-1,alpha} and 64 evenly spaced c <= alpha; all alphas of Alpha/Alpha16/NYCbCrA/NRGBA/RGBA and a user-defined colour type; LineariseImage/EncodeImage on 256x256 images holding every alpha (origin (5,7), parallelism 1/3/7, destination fresh or pre-filled with 0xff); encode: all 65,536 a/65535 alphas plus the float32 alphabet (powers of two, 1.5x, +/-, Inf, NaN) through every converter; distinct = (space, c, alpha) triples with 0 < c < alpha < max")
 	}
 
 	// float32 alpha alphabet for the encode side
@@ -306,22 +306,28 @@ func C14(tier string) {
 							sn64.SetNRGBA64(x, y, color.NRGBA64{R: 40000, G: uint16(a), B: 123, A: uint16(a)})
 						}
 					}
-					dst := image.NewRGBA64(image.Rect(0, 0, 256, 256))
-					r.Guard(sp.Name+"/"+op+"/panic", func() {
-						if op == "LineariseImage" {
-							sp.LineariseImage(dst, src, par)
-						} else {
-							sp.EncodeImage(dst, src, par)
+					for _, fill := range []byte{0, 0xFF} {
+						// the destination is either fresh or a reused buffer full of old data
+						dst := image.NewRGBA64(image.Rect(0, 0, 256, 256))
+						for i := range dst.Pix {
+							dst.Pix[i] = fill
 						}
-					})
-					for a := 0; a < 65536; a++ {
-						if got := dst.RGBA64At(a%256, a/256).A; got != uint16(a) {
-							r.Violate(sp.Name+"/"+op+"/alpha", fmt.Sprintf("%s.%s of a %s image at origin (5,7), parallelism %d: the pixel with alpha %d comes out with alpha %d", sp.Name, op, kind, par, a, got),
-								map[string]interface{}{"alpha": a, "parallelism": par, "kind": kind}, nil)
-							break
+						r.Guard(sp.Name+"/"+op+"/panic", func() {
+							if op == "LineariseImage" {
+								sp.LineariseImage(dst, src, par)
+							} else {
+								sp.EncodeImage(dst, src, par)
+							}
+						})
+						for a := 0; a < 65536; a++ {
+							if got := dst.RGBA64At(a%256, a/256).A; got != uint16(a) {
+								r.Violate(sp.Name+"/"+op+"/alpha", fmt.Sprintf("%s.%s of a %s image at origin (5,7), parallelism %d, destination pre-filled with 0x%02x: the pixel with alpha %d comes out with alpha %d", sp.Name, op, kind, par, fill, a, got),
+									map[string]interface{}{"alpha": a, "parallelism": par, "kind": kind, "fill": fill}, nil)
+								break
+							}
 						}
+						r.Eval(65536)
 					}
-					r.Eval(65536)
 				}
 			}
 		}
